@@ -434,6 +434,11 @@ func TestC16_InvalidBases(t *testing.T) {
 	ev := c16Ev()
 	kn := c16Replay()
 	ev.Floor("invalid:rejected", "invalid", 0.5)
+	// this test's bases are invalid by construction: nothing is accepted through any intake, so the
+	// acceptance floors of the shared collector do not apply to this process
+	for m := intake(0); m < numIntake; m++ {
+		ev.Floor("intake:"+m.String()+":accepted", "intake:"+m.String(), 0)
+	}
 	harn.Check(t, 600, 4800, func(t *rapid.T) {
 		tx := &txSpec{Body: genBody(t)}
 		ns := genNSets(t)
